@@ -98,6 +98,25 @@ func decoderUsesNumber(c *Ctx) {
 	if n == 0 {
 		c.R.Fail("decoder-uses-number: jsonDecode does not call Decode")
 	}
+	// and nothing decodes request members behind its back: no other JSON decode in the package targets a RawParams member
+	for _, f2 := range transportFuncs(c) {
+		if topFn(f2) == fn {
+			continue
+		}
+		for _, call := range an.CallsIn(f2, func(_ ssa.CallInstruction, ci an.CalleeInfo) bool {
+			nm := ci.FullName()
+			return nm == "encoding/json.Unmarshal" || nm == "(*encoding/json.Decoder).Decode"
+		}) {
+			args := call.Common().Args
+			tgt := an.Strip(args[len(args)-1])
+			if mi, ok := tgt.(*ssa.MakeInterface); ok {
+				tgt = an.Strip(mi.X)
+			}
+			if fa, ok := tgt.(*ssa.FieldAddr); ok && strings.HasSuffix(fa.X.Type().String(), "graphql.RawParams") {
+				c.R.Bad(shortFn(topFn(f2))+"/decode:"+fieldNameOf(fa), c.ipos(call), "RawParams."+fieldNameOf(fa)+" is decoded by a JSON decoder of its own, without UseNumber: on this transport numbers in "+strings.ToLower(fieldNameOf(fa))+" arrive as float64 (an Int variable is refused, a large one is rounded) while the other transports keep them exact")
+			}
+		}
+	}
 }
 
 // c11Round2: websocket rules from the second round.
